@@ -31,6 +31,11 @@ func (t *Term) String() string {
 	return t.S
 }
 
+// readsMemory reports whether the value of the term depends on memory that can be written.
+func (t *Term) readsMemory() bool {
+	return t != nil && (len(t.Fields) > 0 || len(t.Ifaces) > 0 || t.Shared || t.HasMap)
+}
+
 func newTerm(s string) *Term {
 	return &Term{S: s, Fields: map[*types.Var]bool{}, Ifaces: map[string]bool{}, Regs: map[ssa.Value]bool{}}
 }
@@ -69,6 +74,8 @@ type Frame struct {
 	Bind   map[ssa.Value]*Term // parameters and free variables
 	cache  map[ssa.Value]*Term
 	Depth  int
+	// bindKey distinguishes activations of one call site whose bindings differ (a binding that went stale is opaque)
+	bindKey string
 }
 
 // Chain renders the call chain "root > callee@file:line > ...".
